@@ -3,7 +3,7 @@
 # constants are exactly what it derives from the shipped P4Info.
 # Prints "STATIC-OK" or "STATIC-MISMATCH <file>"; exit 2 on tool trouble.
 set -u
-export GOFLAGS=-mod=mod GOPROXY=off
+export GOFLAGS=-mod=mod GOPROXY=off; unset GOTOOLCHAIN GOSUMDB   # the repo picks its own toolchain
 T=$(mktemp -d /tmp/c16static.XXXXXX); trap 'rm -rf "$T"' EXIT
 cd "${VERIF_REPO:-/repo}" || exit 2
 go run ./cmd/p4info_code_gen -p4info conf/p4/bin/p4info.txt -output $T/a.go >/dev/null 2>$T/err || { cat $T/err >&2; exit 2; }
